@@ -825,4 +825,98 @@ theorem acyclic_of_rank {S : List Tx} (rank : Nat → Nat)
   intro h hh
   exact Nat.lt_irrefl _ (key h h hh)
 
+/-! ### acyclicity is decidable (peeling: repeatedly drop the hashes with no remaining parent) -/
+
+/-- one peeling round: keep the hashes that still have a parent among the kept ones -/
+def peelStep (E : List (Nat × Nat)) (R : List Nat) : List Nat :=
+  R.filter fun x => R.any fun y => E.contains (y, x)
+
+def peel (E : List (Nat × Nat)) : Nat → List Nat → List Nat
+  | 0, R => R
+  | k + 1, R => peel E k (peelStep E R)
+
+/-- Decision procedure for `Acyclic` (`acyclicB_iff`): after `|S|` peeling rounds nothing is left. -/
+def acyclicB (S : List Tx) : Bool := (peel (edges S) S.length (hashes S)).isEmpty
+
+theorem mem_peelStep {E : List (Nat × Nat)} {R : List Nat} {x : Nat} :
+    x ∈ peelStep E R ↔ x ∈ R ∧ ∃ y ∈ R, (y, x) ∈ E := by
+  simp [peelStep, List.mem_filter]
+
+theorem Reach.last {r : Nat → Nat → Prop} {a b : Nat} (h : Reach r a b) :
+    ∃ y, r y b ∧ (a = y ∨ Reach r a y) := by
+  induction h with
+  | single h => exact ⟨_, h, Or.inl rfl⟩
+  | cons h _ ih =>
+    obtain ⟨y, hy, hor⟩ := ih
+    refine ⟨y, hy, Or.inr ?_⟩
+    rcases hor with rfl | hor
+    · exact Reach.single h
+    · exact Reach.cons h hor
+
+theorem cycle_parent {r : Nat → Nat → Prop} {x : Nat} (h : Reach r x x) : ∃ y, r y x ∧ Reach r y y := by
+  obtain ⟨y, hy, hor⟩ := h.last
+  refine ⟨y, hy, ?_⟩
+  rcases hor with rfl | hor
+  · exact Reach.single hy
+  · exact Reach.cons hy hor
+
+theorem peel_keeps_cycles {E : List (Nat × Nat)} (k : Nat) (R : List Nat)
+    (hR : ∀ x, Reach (fun p c => (p, c) ∈ E) x x → x ∈ R) :
+    ∀ x, Reach (fun p c => (p, c) ∈ E) x x → x ∈ peel E k R := by
+  induction k generalizing R with
+  | zero => exact hR
+  | succ k ih =>
+    apply ih
+    intro x hx
+    obtain ⟨y, hyx, hy⟩ := cycle_parent hx
+    exact mem_peelStep.mpr ⟨hR x hx, y, hR y hy, hyx⟩
+
+theorem peelStep_length_lt {E : List (Nat × Nat)} {R : List Nat} (hne : R ≠ [])
+    (hac : ∀ h, ¬ Reach (fun p c => (p, c) ∈ E) h h) : (peelStep E R).length < R.length := by
+  have hle : (peelStep E R).length ≤ R.length := List.length_filter_le _ _
+  apply Nat.lt_of_le_of_ne hle
+  intro heq
+  have hall := List.length_filter_eq_length_iff.mp heq
+  obtain ⟨x, hx⟩ := exists_cycle_of_all_have_parent R (fun p c => (p, c) ∈ E) hne (by
+    intro x hx
+    have := hall x hx
+    simp only [List.any_eq_true, List.contains_iff_mem] at this
+    exact this)
+  exact hac x hx
+
+theorem peel_length_le {E : List (Nat × Nat)} (hac : ∀ h, ¬ Reach (fun p c => (p, c) ∈ E) h h)
+    (k : Nat) (R : List Nat) : (peel E k R).length ≤ R.length - k := by
+  induction k generalizing R with
+  | zero => exact Nat.le_refl _
+  | succ k ih =>
+    have h1 := ih (peelStep E R)
+    simp only [peel]
+    by_cases hne : R = []
+    · subst hne
+      simpa [peelStep] using h1
+    · have := peelStep_length_lt hne hac
+      omega
+
+theorem acyclicB_iff (S : List Tx) : acyclicB S = true ↔ Acyclic S := by
+  unfold acyclicB
+  rw [List.isEmpty_iff]
+  constructor
+  · intro hnil h hh
+    have hmem : ∀ x, Reach (fun p c => (p, c) ∈ edges S) x x → x ∈ hashes S := by
+      intro x hx
+      obtain ⟨y, hyx, _⟩ := cycle_parent hx
+      obtain ⟨t, ht, hte⟩ := edges_snd_mem hyx
+      have hte' : t.hash = x := hte
+      exact hte' ▸ List.mem_map_of_mem ht
+    have := peel_keeps_cycles S.length (hashes S) hmem h hh
+    rw [hnil] at this
+    cases this
+  · intro hac
+    have := peel_length_le hac S.length (hashes S)
+    have hl : (hashes S).length = S.length := by simp [hashes]
+    apply List.eq_nil_of_length_eq_zero
+    omega
+
+instance (S : List Tx) : Decidable (Acyclic S) := decidable_of_iff _ (acyclicB_iff S)
+
 end Kahn
